@@ -139,6 +139,75 @@ def run(case):
     return '+'.join(sorted(labels)), nt
 
 
+def mdq_cases():
+    out = []
+    for answer in ('right', 'other-entity', 'not-found', 'garbage'):
+        for url in (None, 'registered', 'unregistered'):
+            for typ in ('authn', 'logout'):
+                for warm in (False, True):
+                    out.append({'answer': answer, 'url': url, 'typ': typ, 'warm': warm})
+    return out
+
+
+def run_mdq(case):
+    """the on-demand metadata backend (MDQ): the requester's descriptor is fetched when first needed; whatever the server answers, a destination is only
+    derived from a descriptor that really carries the requester's entityID"""
+    from saml2_tophat import samlp, saml, mdstore
+    X, Y = SPS
+    mdx = {X: build.entity_xml({'entityid': X, 'sp': {'keys': [('signing', 0)], 'acs': [(B['post'], 'https://sp1.example.org/acs', 0, True)], 'slo': [(B['redirect'], 'https://sp1.example.org/slo')]}}),
+           Y: build.entity_xml({'entityid': Y, 'sp': {'keys': [('signing', 1)], 'acs': [(B['post'], 'https://sp2.example.org/acs', 0, True)], 'slo': [(B['redirect'], 'https://sp2.example.org/slo')]}})}
+
+    class Resp(object):
+        def __init__(self, code, content):
+            self.status_code, self.content, self.text = code, content, content
+
+    def fake_get(url, **kw):
+        import hashlib
+        want = [e for e in mdx if url.endswith('{sha1}' + hashlib.sha1(e.encode('utf-8')).hexdigest())]
+        if not want or case['answer'] == 'not-found':
+            return Resp(404, '')
+        if case['answer'] == 'garbage':
+            return Resp(200, '<html>not metadata</html>')
+        ent = want[0] if case['answer'] == 'right' else [e for e in mdx if e != want[0]][0]
+        return Resp(200, mdx[ent])
+
+    class FakeRequests(object):
+        get = staticmethod(fake_get)
+    conf = world.idp_conf(dict(world.DEFAULT_IDP), [])
+    conf['metadata'] = {'mdq': ['https://mdq.example.org']}
+    old = mdstore.requests
+    mdstore.requests = FakeRequests
+    try:
+        idp = world.make_idp(conf)
+        url = {None: None, 'registered': 'https://sp1.example.org/acs', 'unregistered': 'https://sp2.example.org/acs'}[case['url']]
+        iss = saml.Issuer(text=X)
+        if case['typ'] == 'authn':
+            msg = samlp.AuthnRequest(id='id-1', issuer=iss, assertion_consumer_service_url=url)
+        else:
+            msg = samlp.LogoutRequest(id='id-1', issuer=iss, name_id=saml.NameID(text='x'))
+        outs = []
+        for _ in range(2 if case['warm'] else 1):
+            try:
+                info = idp.response_args(msg, None)
+                outs.append((info.get('binding'), info.get('destination')))
+            except Exception as e:
+                outs.append(None)
+    finally:
+        mdstore.requests = old
+    reg = {'authn': [(B['post'], 'https://sp1.example.org/acs')], 'logout': [(B['redirect'], 'https://sp1.example.org/slo')]}[case['typ']]
+    for o in outs:
+        if o is None:
+            continue
+        if case['answer'] != 'right':
+            raise Violation('destination-for-unknown-requester', 'the MDQ server answered the query for %s with %s, yet destination %r was derived' % (X, case['answer'], o))
+        if o not in reg:
+            raise Violation('unregistered-destination', 'derived %r is not registered for %s (%r)' % (o, X, reg))
+        if case['typ'] == 'authn' and url is not None and o[1] != url:
+            raise Violation('supplied-url-not-honoured-nor-refused', 'consumer URL %r supplied, answered at %r' % (url, o[1]))
+    return 'mdq|%s|%s' % (case['answer'], 'answered' if any(outs) else 'refused'), True
+
+
 def parts(tier):
     quick = tier != 'thorough'
-    return [Part('requests', run, strategy=case_strategy, examples=3000 if quick else 100000)]
+    return [Part('mdq-backend', run_mdq, cases=mdq_cases, exhaustive=True),
+            Part('requests', run, strategy=case_strategy, examples=3000 if quick else 100000)]
